@@ -8,6 +8,7 @@ every scalar (0 included), every vector, every evaluation point and arbitrary (n
 leaf operators.
 -/
 import OdlModel.Lemmas.OpAlgebra
+import Mathlib.Algebra.Field.Rat
 
 open OdlModel.OpAlgebra
 
@@ -214,3 +215,343 @@ theorem C04.build_sound_inplace {K : Type} [Field K] [DecidableEq K]
     (env : Nat → Vec K → Vec K) (e : Expr K) (henv : EnvOK env e) (i : Impl K)
     (h : build env e = some i) (x : Vec K) : runIn env i x = den env e x := by
   rw [C04.inplace_eq_outofplace, C04.build_sound env e henv i h]
+
+/-- `build_type`: the object built for `e` has exactly the domain, range and
+`Functional`-ness that the typing rules of the documented table (`typeOf`, defined on the
+surface expression without looking at the dispatch) give, and the dispatch raises exactly
+when those rules reject the expression: `(build e).map ty = typeOf e`.  The second
+component is the invariant used in the induction (a built `Functional` has the field as
+range).  `LeavesWf`: leaf `Functional`s have the field as range. -/
+theorem C04.build_type {K : Type} [Field K] [DecidableEq K] (env : Nat → Vec K → Vec K) (e : Expr K) (hwf : LeavesWf e) :
+    (build env e).map Impl.ty = typeOf e ∧ ∀ i, build env e = some i → FnRan i := by
+  induction e with
+  | leaf l =>
+    refine ⟨rfl, fun i h => ?_⟩
+    simp only [build, Option.some.injEq] at h; subst h
+    exact hwf
+  | neg a ih =>
+    obtain ⟨ht, hf⟩ := ih hwf
+    cases ha : build env a with
+    | none => simp_all [build, typeOf]
+    | some a' =>
+      have := hf a' ha
+      refine ⟨?_, fun i h => ?_⟩
+      · simp only [build, ha, typeOf, ← ht, Option.map_some, ty_opRMulScal a' _ this]
+      · simp only [build, ha, Option.map_some, Option.some.injEq] at h; subst h
+        exact fnRan_of_ty (ty_opRMulScal a' _ this) this
+  | pow a n ih =>
+    obtain ⟨ht, hf⟩ := ih hwf
+    cases ha : build env a with
+    | none =>
+      rw [ha] at ht
+      refine ⟨?_, fun i h => by simp [build, ha] at h⟩
+      simp only [build, ha, typeOf, ← ht, Option.map_none, Option.bind_none]
+    | some a' =>
+      have hfa := hf a' ha
+      rw [ha] at ht
+      match n with
+      | 0 =>
+        refine ⟨?_, fun i h => by simp [build, ha, opPow] at h⟩
+        simp [build, ha, typeOf, ← ht, opPow]
+      | 1 =>
+        refine ⟨?_, fun i h => ?_⟩
+        · simp [build, ha, typeOf, ← ht, opPow]
+        · simp only [build, ha, opPow, Option.bind_some, Option.some.injEq] at h; subst h; exact hfa
+      | k + 2 =>
+        refine ⟨?_, fun i h => ?_⟩
+        · simp only [build, ha, typeOf, ← ht, opPow, Option.bind_some, Option.map_some, Impl.ty]
+          split_ifs <;> simp [Impl.ty, powAux, dom_powAux]
+        · simp only [build, ha, opPow, Option.bind_some] at h
+          split_ifs at h; cases h
+          intro hfn; simp [powAux] at hfn
+  | bin o a b iha ihb =>
+    obtain ⟨hta, hfa⟩ := iha hwf.1
+    obtain ⟨htb, hfb⟩ := ihb hwf.2
+    cases ha : build env a with
+    | none =>
+      rw [ha] at hta
+      refine ⟨?_, fun i h => by simp [build, ha] at h⟩
+      simp [build, ha, typeOf, ← hta]
+    | some a' =>
+      cases hb : build env b with
+      | none =>
+        rw [ha] at hta; rw [hb] at htb
+        refine ⟨?_, fun i h => by simp [build, ha, hb] at h⟩
+        simp [build, ha, hb, typeOf, ← hta, ← htb]
+      | some b' =>
+        have h1 := hfa a' ha
+        have h2 := hfb b' hb
+        rw [ha] at hta; rw [hb] at htb
+        simp only [Option.map_some] at hta htb
+        simp only [build, ha, hb, typeOf, ← hta, ← htb]
+        cases o with
+        | add => exact ⟨ty_opAdd a' b', fun i h => fnRan_opAdd h h1 h2⟩
+        | sub =>
+          have h3 : FnRan (opRMulScal (-1) b') := fnRan_of_ty (ty_opRMulScal b' _ h2) h2
+          refine ⟨?_, fun i h => fnRan_opAdd h h1 h3⟩
+          simp only [ty_opAdd, ty_opRMulScal b' _ h2]; rfl
+        | mul =>
+          simp only [opMul]
+          refine ⟨?_, fun i h => ?_⟩
+          · split_ifs <;> simp_all [Impl.ty]
+          · split_ifs at h; cases h; intro hfn
+            simp only [Impl.isFn_comp] at hfn; simp [h1 hfn]
+        | pprod =>
+          simp only [mkPProd]
+          refine ⟨?_, fun i h => ?_⟩
+          · split_ifs <;> simp_all [Impl.ty]
+          · split_ifs at h; cases h; intro hfn
+            simp only [Impl.isFn_pprod, Bool.and_eq_true] at hfn; simp [h1 hfn.1]
+        | quot =>
+          simp only [mkQuot]
+          refine ⟨?_, fun i h => ?_⟩
+          · split_ifs <;> simp_all [Impl.ty]
+          · split_ifs at h; cases h; intro _; rfl
+  | sc o a s ih =>
+    obtain ⟨ht, hf⟩ := ih hwf
+    cases ha : build env a with
+    | none =>
+      rw [ha] at ht
+      refine ⟨?_, fun i h => by simp [build, ha] at h⟩
+      simp [build, ha, typeOf, ← ht]
+    | some a' =>
+      have h1 := hf a' ha
+      rw [ha] at ht
+      simp only [Option.map_some] at ht
+      simp only [build, ha, typeOf, ← ht]
+      have hneg := ty_opRMulScal a' (-1) h1
+      have hnegf : FnRan (opRMulScal (-1) a') := fnRan_of_ty hneg h1
+      cases o with
+      | lmul =>
+        refine ⟨by simp [ty_opRMulScal a' _ h1], fun i h => ?_⟩
+        simp only [Option.some.injEq] at h; subst h
+        exact fnRan_of_ty (ty_opRMulScal a' _ h1) h1
+      | rmul =>
+        refine ⟨by simp [ty_opMulScal env a' _ h1], fun i h => ?_⟩
+        simp only [Option.some.injEq] at h; subst h
+        exact fnRan_of_ty (ty_opMulScal env a' _ h1) h1
+      | div =>
+        refine ⟨?_, fun i h => ?_⟩
+        · split_ifs <;> simp [ty_opMulScal env a' _ h1]
+        · split_ifs at h
+          simp only [Option.some.injEq] at h; subst h
+          exact fnRan_of_ty (ty_opMulScal env a' _ h1) h1
+      | add => exact ⟨ty_opAddScal a' s, fun i h => fnRan_opAddScal h h1⟩
+      | radd => exact ⟨ty_opAddScal a' s, fun i h => fnRan_opAddScal h h1⟩
+      | sub => exact ⟨ty_opAddScal a' _, fun i h => fnRan_opAddScal h h1⟩
+      | rsub =>
+        refine ⟨?_, fun i h => fnRan_opAddScal h hnegf⟩
+        rw [ty_opAddScal, hneg]; rfl
+  | vc o a v ih =>
+    obtain ⟨ht, hf⟩ := ih hwf
+    cases ha : build env a with
+    | none =>
+      rw [ha] at ht
+      refine ⟨?_, fun i h => by simp [build, ha] at h⟩
+      simp [build, ha, typeOf, ← ht]
+    | some a' =>
+      have h1 := hf a' ha
+      rw [ha] at ht
+      simp only [Option.map_some] at ht
+      simp only [build, ha, typeOf, ← ht]
+      have hneg := ty_opRMulScal a' (-1) h1
+      cases o with
+      | lmul =>
+        simp only [opRMulVec]
+        refine ⟨?_, fun i h => ?_⟩
+        · split_ifs <;> simp_all [Impl.ty]
+        · split_ifs at h <;> cases h <;> intro hfn <;> simp at hfn
+      | rmul =>
+        simp only [opMulVec]
+        refine ⟨?_, fun i h => ?_⟩
+        · split_ifs <;> simp_all [Impl.ty]
+        · split_ifs at h; cases h; intro hfn
+          simp only [Impl.isFn_rvec] at hfn; simp [h1 hfn]
+      | add => exact ⟨ty_opAddVec a' _ _, fun i h => fnRan_opAddVec h⟩
+      | radd => exact ⟨ty_opAddVec a' _ _, fun i h => fnRan_opAddVec h⟩
+      | sub => exact ⟨ty_opAddVec a' _ _, fun i h => fnRan_opAddVec h⟩
+      | rsub =>
+        refine ⟨?_, fun i h => fnRan_opAddVec h⟩
+        rw [ty_opAddVec, hneg]; rfl
+
+/-- `build_total`: a well-typed expression never raises, and the result has the implied
+domain and range. -/
+theorem C04.build_total {K : Type} [Field K] [DecidableEq K]
+    (env : Nat → Vec K → Vec K) (e : Expr K) (hwf : LeavesWf e) (t : Ty)
+    (ht : typeOf e = some t) :
+    ∃ i, build env e = some i ∧ i.dom = t.dom ∧ i.ran = t.ran ∧ i.isFn = t.fn := by
+  have h := (C04.build_type env e hwf).1
+  rw [ht] at h
+  cases hb : build env e with
+  | none => rw [hb] at h; simp at h
+  | some i =>
+    rw [hb] at h
+    simp only [Option.map_some, Option.some.injEq] at h
+    exact ⟨i, rfl, by rw [← h]; rfl, by rw [← h]; rfl, by rw [← h]; rfl⟩
+
+/-- Conversely an ill-typed expression is rejected (the Python expression raises). -/
+theorem C04.build_rejects {K : Type} [Field K] [DecidableEq K]
+    (env : Nat → Vec K → Vec K) (e : Expr K) (hwf : LeavesWf e) (ht : typeOf e = none) :
+    build env e = none := by
+  have h := (C04.build_type env e hwf).1
+  rw [ht] at h
+  cases hb : build env e with
+  | none => rfl
+  | some i => rw [hb] at h; simp at h
+
+/- Full-strength statement of flag completeness (FALSE on the code as it exists, finding
+C04-F1):
+   `∀ e i, EnvOK env e → build env e = some i → linOf e = true → i.lin = true`.
+`FunctionalRightVectorMult.__init__` re-initialises through `Functional.__init__(space)` and
+drops `linear=func.is_linear`; see `C04.linear_flag_complete_fails`. -/
+
+/-- `linear_flag_complete_partial`: the `is_linear` flag implied by the expression (`linOf`:
+sums, compositions, scalar/vector multiples, powers of linear operands) IS set on the built
+object — for every expression that contains no `f * v` with `f` a `Functional` object
+(`NoFnRVec`, the call site of C04-F1).  Missing for the full statement: that call site. -/
+theorem C04.linear_flag_complete_partial {K : Type} [Field K] [DecidableEq K] (env : Nat → Vec K → Vec K) (e : Expr K)
+    (henv : EnvOK env e) (hno : NoFnRVec env e) :
+    ∀ i, build env e = some i → linOf e = true → i.lin = true := by
+  induction e with
+  | leaf l =>
+    intro i h hl
+    simp only [build, Option.some.injEq] at h; subst h; exact hl
+  | neg a ih =>
+    intro i h hl
+    simp only [build, Option.map_eq_some_iff] at h
+    obtain ⟨a', ha', rfl⟩ := h
+    exact lin_opRMulScal_of a' _ (ih henv hno a' ha' hl)
+  | pow a n ih =>
+    intro i h hl
+    simp only [build, Option.bind_eq_some_iff] at h
+    obtain ⟨a', ha', h⟩ := h
+    rw [lin_opPow h]; exact ih henv hno a' ha' hl
+  | bin o a b iha ihb =>
+    intro i h hl
+    cases ha : build env a with
+    | none => simp [build, ha] at h
+    | some a' =>
+      cases hb : build env b with
+      | none => simp [build, ha, hb] at h
+      | some b' =>
+        simp only [build, ha, hb] at h
+        cases o with
+        | add =>
+          simp only [linOf, Bool.and_eq_true] at hl
+          simp only at h
+          rw [lin_opAdd h, iha henv.1 hno.1 a' ha hl.1, ihb henv.2 hno.2 b' hb hl.2]; rfl
+        | sub =>
+          simp only [linOf, Bool.and_eq_true] at hl
+          simp only at h
+          rw [lin_opAdd h, iha henv.1 hno.1 a' ha hl.1,
+            lin_opRMulScal_of b' _ (ihb henv.2 hno.2 b' hb hl.2)]; rfl
+        | mul =>
+          simp only [linOf, Bool.and_eq_true] at hl
+          simp only at h
+          rw [lin_opMul h, iha henv.1 hno.1 a' ha hl.1, ihb henv.2 hno.2 b' hb hl.2]; rfl
+        | pprod => simp [linOf] at hl
+        | quot => simp [linOf] at hl
+  | sc o a s ih =>
+    intro i h hl
+    cases ha : build env a with
+    | none => simp [build, ha] at h
+    | some a' =>
+      simp only [build, ha] at h
+      have hinv := (C04.build_sound_inv env a henv a' ha).2
+      cases o with
+      | lmul =>
+        simp only [Option.some.injEq] at h; subst h
+        exact lin_opRMulScal_of a' _ (ih henv hno a' ha hl)
+      | rmul =>
+        simp only [Option.some.injEq] at h; subst h
+        exact lin_opMulScal_of env _ hinv (ih henv hno a' ha hl)
+      | div =>
+        simp only at h
+        split_ifs at h
+        simp only [Option.some.injEq] at h; subst h
+        exact lin_opMulScal_of env _ hinv (ih henv hno a' ha hl)
+      | add => simp [linOf] at hl
+      | radd => simp [linOf] at hl
+      | sub => simp [linOf] at hl
+      | rsub => simp [linOf] at hl
+  | vc o a v ih =>
+    intro i h hl
+    cases ha : build env a with
+    | none => simp [build, ha] at h
+    | some a' =>
+      simp only [build, ha] at h
+      cases o with
+      | lmul =>
+        simp only at h
+        rw [lin_opRMulVec h]; exact ih henv hno.1 a' ha hl
+      | rmul =>
+        simp only at h
+        rw [lin_opMulVec h, hno.2 rfl a' ha]
+        simpa using ih henv hno.1 a' ha hl
+      | add => simp [linOf] at hl
+      | radd => simp [linOf] at hl
+      | sub => simp [linOf] at hl
+      | rsub => simp [linOf] at hl
+
+/-- Counterexample on the model of the code as it exists (finding C04-F1): for a linear
+`Functional` leaf `f`, `f * v` builds a `FunctionalRightVectorMult` whose flag is `False`
+although the expression is linear. -/
+theorem C04.linear_flag_complete_fails :
+    ∃ (e : Expr ℚ) (i : Impl ℚ), build (fun _ x => x) e = some i ∧ linOf e = true ∧
+      i.lin = false :=
+  ⟨.vc .rmul (.leaf ⟨0, .vec 3, .fld, true, true⟩) ⟨3, fun _ => 2⟩, _, rfl, rfl, rfl⟩
+
+/-! ### Non-vacuity: concrete instances -/
+
+namespace OdlModel.C04
+/-- leaf 0: entry-wise square on `rn(3)` (nonlinear); leaf 1: `x ↦ 2x` (linear);
+leaf 2: a functional `x ↦ x₀²` (nonlinear `Functional`). -/
+def envQ : Nat → Vec ℚ → Vec ℚ
+  | 0 => fun x j => x j * x j
+  | 1 => fun x j => 2 * x j
+  | _ => fun x _ => x 0 * x 0
+
+def P : Expr ℚ := .leaf ⟨0, .vec 3, .vec 3, false, false⟩
+def M : Expr ℚ := .leaf ⟨1, .vec 3, .vec 3, true, false⟩
+def F : Expr ℚ := .leaf ⟨2, .vec 3, .fld, false, true⟩
+/-- `(P * 2) * M` — the expression of the repaired defect b971211 -/
+def eQ : Expr ℚ := .bin .mul (.sc .rmul P 2) M
+/-- `3 * ((2 * F) * 5) - F * 0` — merging, both `Functional` scalar forms, the zero shortcut -/
+def fQ : Expr ℚ := .bin .sub (.sc .lmul (.sc .rmul (.sc .lmul F 2) 5) 3) (.sc .rmul F 0)
+
+end OdlModel.C04
+
+open OdlModel.C04 in
+/-- `(P*2)*M` is accepted, builds `OperatorComp(OperatorRightScalarMult(P, 2), M)` and
+evaluates to `P(2*M(x))`: at `x = 1` the value is `16` (the pre-b971211 dispatch built
+`M ∘ (P*2)`, value `8`). -/
+example : ∃ i, build envQ eQ = some i ∧ typeOf eQ = some ⟨.vec 3, .vec 3, false⟩ ∧
+    run envQ i (fun _ => 1) 0 = 16 := by
+  obtain ⟨i, hi, _⟩ := C04.build_total envQ eQ
+    (by exact ⟨fun h => by simp at h, fun h => by simp at h⟩) ⟨.vec 3, .vec 3, false⟩ rfl
+  refine ⟨i, hi, rfl, ?_⟩
+  have envOK_eQ : EnvOK envQ eQ := by
+    refine ⟨⟨fun h => by simp at h, fun h => by simp at h⟩,
+      fun _ => ⟨fun s x => ?_, fun x y => ?_⟩, fun h => by simp at h⟩
+    · funext j; simp only [envQ]; ring
+    · funext j; simp only [envQ]; ring
+  rw [C04.build_sound envQ eQ envOK_eQ i hi]
+  simp only [den, eQ, P, M, envQ]; norm_num
+
+open OdlModel.C04 in
+/-- A functional expression with merged scalars and the `f * 0` shortcut: the hypotheses of
+`build_sound` are satisfiable and the value is the table value `3*(2*F(5x)) - F(0)`. -/
+example : ∃ i, build envQ fQ = some i ∧ run envQ i (fun _ => 1) 0 = 150 := by
+  obtain ⟨i, hi, _⟩ := C04.build_total envQ fQ
+    (by exact ⟨fun _ => rfl, fun _ => rfl⟩) ⟨.vec 3, .fld, true⟩ rfl
+  refine ⟨i, hi, ?_⟩
+  have envOK_fQ : EnvOK envQ fQ :=
+    ⟨⟨fun h => by simp at h, fun _ x j => rfl⟩, ⟨fun h => by simp at h, fun _ x j => rfl⟩⟩
+  rw [C04.build_sound envQ fQ envOK_fQ i hi]
+  simp only [den, fQ, F, envQ]; norm_num
+
+open OdlModel.C04 in
+/-- `linear_flag_sound` / `linear_flag_complete_partial` are not vacuous: `(3 * M) * 2 - M`
+is flagged linear. -/
+example : ∃ i, build envQ (.bin .sub (.sc .rmul (.sc .lmul M 3) 2) M) = some i ∧ i.lin = true :=
+  ⟨_, rfl, rfl⟩
